@@ -1,12 +1,781 @@
 //! Component `backend`: protocol runner (real code), case generator, implementation-level oracles.
-//! (stub; owned by the component's author)
+//!
+//! Protocol: `backend.<kind> W | init | op | op …` (see lean/CV/Driver/Backend.lean).
 #![allow(unused)]
 use crate::util::*;
+use constriction::backends::{
+    BoundedReadWords, BoundedWriteWords, Cursor, FallibleCallbackWriteWords,
+    FallibleIteratorReadWords, InfallibleCallbackWriteWords, InfallibleIteratorReadWords,
+    ReadWords, Reverse, SafeBuf, WriteWords,
+};
+use constriction::{Pos, Queue, Seek, Stack};
+use smallvec::SmallVec;
+use std::cell::RefCell;
+use std::rc::Rc;
 
-pub fn run(_segs: &[Vec<&str>]) -> String {
-    "bad-op".into()
+pub trait Wd: num_traits::PrimInt + std::fmt::Debug + 'static {}
+impl Wd for u8 {}
+impl Wd for u16 {}
+impl Wd for u32 {}
+impl Wd for u64 {}
+
+#[derive(Clone, Debug)]
+pub enum Op<W> {
+    ReadS,
+    ReadQ,
+    Write(W),
+    Extend(Vec<W>),
+    RemS,
+    RemQ,
+    ExhS,
+    ExhQ,
+    SpaceLeft,
+    Full,
+    Pos,
+    Seek(usize),
+    IntoReversed,
+    Roundtrip,
+    Raw,
+    BmSet(Vec<W>),
+    BmTruncate(usize),
 }
 
-pub fn gen(_rng: &mut Rng, _tier: &str, _out: &mut Vec<String>) {}
+fn parse_usize(s: &str) -> Option<usize> {
+    let v = parse_hex(s)?;
+    if v > u64::MAX as u128 {
+        None
+    } else {
+        Some(v as usize)
+    }
+}
 
-pub fn oracle(_rng: &mut Rng, _tier: &str, _rep: &mut Report) {}
+fn parse_words<W: Wd>(s: &str) -> Option<Vec<W>> {
+    Some(parse_list(s)?.into_iter().map(from_u128::<W>).collect())
+}
+
+fn parse_op<W: Wd>(seg: &[&str]) -> Option<Op<W>> {
+    Some(match seg {
+        ["read_s"] => Op::ReadS,
+        ["read_q"] => Op::ReadQ,
+        ["write", w] => Op::Write(from_u128(parse_hex(w)?)),
+        ["extend_from_iter", ws] => Op::Extend(parse_words(ws)?),
+        ["remaining_s"] => Op::RemS,
+        ["remaining_q"] => Op::RemQ,
+        ["exhausted_s"] => Op::ExhS,
+        ["exhausted_q"] => Op::ExhQ,
+        ["space_left"] => Op::SpaceLeft,
+        ["full"] => Op::Full,
+        ["pos"] => Op::Pos,
+        ["seek", n] => Op::Seek(parse_usize(n)?),
+        ["into_reversed"] => Op::IntoReversed,
+        ["roundtrip"] => Op::Roundtrip,
+        ["raw"] => Op::Raw,
+        ["bm_set", ws] => Op::BmSet(parse_words(ws)?),
+        ["bm_truncate", n] => Op::BmTruncate(parse_usize(n)?),
+        _ => return None,
+    })
+}
+
+fn show_op<W: Wd>(op: &Op<W>) -> String {
+    match op {
+        Op::ReadS => "read_s".into(),
+        Op::ReadQ => "read_q".into(),
+        Op::Write(w) => format!("write {:x}", to_u128(*w)),
+        Op::Extend(ws) => format!("extend_from_iter {}", show_ws(ws)),
+        Op::RemS => "remaining_s".into(),
+        Op::RemQ => "remaining_q".into(),
+        Op::ExhS => "exhausted_s".into(),
+        Op::ExhQ => "exhausted_q".into(),
+        Op::SpaceLeft => "space_left".into(),
+        Op::Full => "full".into(),
+        Op::Pos => "pos".into(),
+        Op::Seek(n) => format!("seek {:x}", n),
+        Op::IntoReversed => "into_reversed".into(),
+        Op::Roundtrip => "roundtrip".into(),
+        Op::Raw => "raw".into(),
+        Op::BmSet(ws) => format!("bm_set {}", show_ws(ws)),
+        Op::BmTruncate(n) => format!("bm_truncate {:x}", n),
+    }
+}
+
+fn show_ws<W: Wd>(ws: &[W]) -> String {
+    show_list(ws.iter().map(|&w| to_u128(w)))
+}
+
+fn show_word<W: Wd>(o: Option<W>) -> String {
+    match o {
+        Some(w) => hex(to_u128(w)),
+        None => "none".into(),
+    }
+}
+
+fn okerr<E>(r: Result<(), E>, e: &str) -> String {
+    match r {
+        Ok(()) => "ok".into(),
+        Err(_) => e.into(),
+    }
+}
+
+const UNSUP: &str = "unsupported";
+
+/// a backend behind the protocol; `op` consumes and returns the (possibly differently typed) state
+pub trait Dyn<W: Wd> {
+    fn op(self: Box<Self>, op: &Op<W>) -> (String, Box<dyn Dyn<W>>);
+    fn dup(&self) -> Box<dyn Dyn<W>>;
+}
+
+// ---------------------------------------------------------------------------------------
+// Vec / SmallVec
+
+struct VecB<W>(Vec<W>);
+struct SmallB<W: Wd>(SmallVec<[W; 4]>);
+
+macro_rules! stack_ops {
+    ($self:ident, $op:ident, $W:ident, $tag:literal, $extra:expr) => {{
+        let v = &mut $self.0;
+        let s = match $op {
+            Op::ReadS => show_word(<_ as ReadWords<$W, Stack>>::read(v).unwrap()),
+            Op::Write(w) => okerr(v.write(*w), "werr"),
+            Op::Extend(ws) => {
+                let mut it = ws.clone().into_iter();
+                let r = v.extend_from_iter(&mut it);
+                if it.len() != 0 {
+                    format!("leftover {:x}", it.len())
+                } else {
+                    okerr(r, "werr")
+                }
+            }
+            Op::RemS => hex(<_ as BoundedReadWords<$W, Stack>>::remaining(v) as u128),
+            Op::ExhS => format!(
+                "{} {}",
+                <_ as BoundedReadWords<$W, Stack>>::is_exhausted(v),
+                <_ as ReadWords<$W, Stack>>::maybe_exhausted(v)
+            ),
+            Op::Full => format!("{}", <_ as WriteWords<$W>>::maybe_full(v)),
+            Op::Pos => hex(Pos::pos(v) as u128),
+            Op::Seek(p) => okerr(Seek::seek(v, *p), "err"),
+            Op::Raw => format!("{} {} {:x}", $tag, show_ws(&v[..]), $extra(v)),
+            _ => UNSUP.into(),
+        };
+        (s, $self as Box<dyn Dyn<$W>>)
+    }};
+}
+
+impl<W: Wd> Dyn<W> for VecB<W> {
+    fn op(mut self: Box<Self>, op: &Op<W>) -> (String, Box<dyn Dyn<W>>) {
+        stack_ops!(self, op, W, "vec", |_v: &Vec<W>| 0)
+    }
+    fn dup(&self) -> Box<dyn Dyn<W>> {
+        Box::new(VecB(self.0.clone()))
+    }
+}
+
+impl<W: Wd> Dyn<W> for SmallB<W> {
+    fn op(mut self: Box<Self>, op: &Op<W>) -> (String, Box<dyn Dyn<W>>) {
+        stack_ops!(self, op, W, "smallvec", |v: &SmallVec<[W; 4]>| v.spilled() as u32)
+    }
+    fn dup(&self) -> Box<dyn Dyn<W>> {
+        Box::new(SmallB(self.0.clone()))
+    }
+}
+
+// ---------------------------------------------------------------------------------------
+// Cursor / Reverse<Cursor> over the four buffer types
+
+pub trait BufK<W: Wd>: SafeBuf<W> + Sized + 'static {
+    fn from_vec(v: Vec<W>) -> Self;
+    /// what safe code does through `buf_mut()` to shorten the buffer
+    fn truncate(&mut self, n: usize) {
+        let v: Vec<W> = self.as_ref().iter().take(n).cloned().collect();
+        *self = Self::from_vec(v);
+    }
+}
+impl<W: Wd> BufK<W> for Vec<W> {
+    fn from_vec(v: Vec<W>) -> Self {
+        v
+    }
+    fn truncate(&mut self, n: usize) {
+        Vec::truncate(self, n)
+    }
+}
+impl<W: Wd> BufK<W> for Box<[W]> {
+    fn from_vec(v: Vec<W>) -> Self {
+        v.into_boxed_slice()
+    }
+}
+impl<W: Wd> BufK<W> for &'static mut [W] {
+    fn from_vec(v: Vec<W>) -> Self {
+        v.leak()
+    }
+}
+impl<W: Wd> BufK<W> for &'static [W] {
+    fn from_vec(v: Vec<W>) -> Self {
+        v.leak()
+    }
+}
+
+fn cur_ro<W: Wd, Buf: BufK<W>>(c: &mut Cursor<W, Buf>, op: &Op<W>) -> Option<String> {
+    Some(match op {
+        Op::ReadS => show_word(<_ as ReadWords<W, Stack>>::read(c).unwrap()),
+        Op::ReadQ => show_word(<_ as ReadWords<W, Queue>>::read(c).unwrap()),
+        Op::RemS => hex(<_ as BoundedReadWords<W, Stack>>::remaining(c) as u128),
+        Op::RemQ => hex(<_ as BoundedReadWords<W, Queue>>::remaining(c) as u128),
+        Op::ExhS => format!(
+            "{} {}",
+            <_ as BoundedReadWords<W, Stack>>::is_exhausted(c),
+            <_ as ReadWords<W, Stack>>::maybe_exhausted(c)
+        ),
+        Op::ExhQ => format!(
+            "{} {}",
+            <_ as BoundedReadWords<W, Queue>>::is_exhausted(c),
+            <_ as ReadWords<W, Queue>>::maybe_exhausted(c)
+        ),
+        Op::Pos => hex(c.pos() as u128),
+        Op::Seek(p) => okerr(c.seek(*p), "err"),
+        Op::Raw => format!("fwd {} {:x}", show_ws(c.buf().as_ref()), c.pos()),
+        Op::BmSet(ws) => {
+            *c.buf_mut() = Buf::from_vec(ws.clone());
+            "ok".into()
+        }
+        Op::BmTruncate(n) => {
+            c.buf_mut().truncate(*n);
+            "ok".into()
+        }
+        _ => return None,
+    })
+}
+
+fn rev_ro<W: Wd, Buf: BufK<W>>(r: &mut Reverse<Cursor<W, Buf>>, op: &Op<W>) -> Option<String> {
+    Some(match op {
+        Op::ReadS => show_word(<_ as ReadWords<W, Stack>>::read(r).unwrap()),
+        Op::ReadQ => show_word(<_ as ReadWords<W, Queue>>::read(r).unwrap()),
+        Op::RemS => hex(<_ as BoundedReadWords<W, Stack>>::remaining(r) as u128),
+        Op::RemQ => hex(<_ as BoundedReadWords<W, Queue>>::remaining(r) as u128),
+        Op::ExhS => format!(
+            "{} {}",
+            <_ as BoundedReadWords<W, Stack>>::is_exhausted(r),
+            <_ as ReadWords<W, Stack>>::maybe_exhausted(r)
+        ),
+        Op::ExhQ => format!(
+            "{} {}",
+            <_ as BoundedReadWords<W, Queue>>::is_exhausted(r),
+            <_ as ReadWords<W, Queue>>::maybe_exhausted(r)
+        ),
+        Op::Pos => hex(r.pos() as u128),
+        Op::Seek(p) => okerr(r.seek(*p), "err"),
+        Op::Raw => format!("rev {} {:x}", show_ws(r.0.buf().as_ref()), r.0.pos()),
+        Op::BmSet(ws) => {
+            *r.0.buf_mut() = Buf::from_vec(ws.clone());
+            "ok".into()
+        }
+        Op::BmTruncate(n) => {
+            r.0.buf_mut().truncate(*n);
+            "ok".into()
+        }
+        _ => return None,
+    })
+}
+
+fn extend_out<W: Wd, B: WriteWords<W>>(b: &mut B, ws: &[W]) -> String {
+    let mut it = ws.to_vec().into_iter();
+    match b.extend_from_iter(&mut it) {
+        Ok(()) => {
+            if it.len() != 0 {
+                format!("leftover {:x}", it.len())
+            } else {
+                "ok".into()
+            }
+        }
+        Err(_) => format!("full {:x}", it.len()),
+    }
+}
+
+
+/// would `new_at_pos(buf, pos)` accept the current parts?  (asked on a copy, because the real
+/// roundtrip consumes the cursor and a refusal would drop the buffer)
+fn roundtrip_refused<W: Wd, Buf: BufK<W>>(c: &Cursor<W, Buf>) -> bool {
+    Cursor::<W, Buf>::new_at_pos(Buf::from_vec(c.buf().as_ref().to_vec()), c.pos()).is_err()
+}
+
+struct CurRW<W, Buf>(Cursor<W, Buf>);
+struct RevRW<W, Buf>(Reverse<Cursor<W, Buf>>);
+struct CurRO<W: 'static>(Cursor<W, &'static [W]>);
+struct RevRO<W: 'static>(Reverse<Cursor<W, &'static [W]>>);
+
+fn rebuild<W: Wd, Buf: BufK<W>>(c: &Cursor<W, Buf>) -> Cursor<W, Buf> {
+    Cursor::new_at_pos(Buf::from_vec(c.buf().as_ref().to_vec()), c.pos())
+        .expect("dup of a cursor whose invariant is broken")
+}
+
+impl<W: Wd, Buf: BufK<W> + AsMut<[W]>> Dyn<W> for CurRW<W, Buf> {
+    fn op(mut self: Box<Self>, op: &Op<W>) -> (String, Box<dyn Dyn<W>>) {
+        if let Some(s) = cur_ro(&mut self.0, op) {
+            return (s, self);
+        }
+        let c = &mut self.0;
+        let s = match op {
+            Op::Write(w) => okerr(c.write(*w), "full"),
+            Op::Extend(ws) => extend_out(c, ws),
+            Op::SpaceLeft => hex(c.space_left() as u128),
+            Op::Full => format!("{} {}", c.is_full(), c.maybe_full()),
+            Op::IntoReversed => {
+                let r = self.0.into_reversed();
+                return ("ok".into(), Box::new(RevRW(r)));
+            }
+            Op::Roundtrip => {
+                if roundtrip_refused(&self.0) {
+                    return ("err".into(), self);
+                }
+                let (buf, pos) = self.0.into_buf_and_pos();
+                return match Cursor::new_at_pos(buf, pos) {
+                    Ok(c) => ("ok".into(), Box::new(CurRW(c))),
+                    Err(()) => panic!("roundtrip refused"),
+                };
+            }
+            _ => UNSUP.into(),
+        };
+        (s, self)
+    }
+    fn dup(&self) -> Box<dyn Dyn<W>> {
+        Box::new(CurRW(rebuild(&self.0)))
+    }
+}
+
+impl<W: Wd, Buf: BufK<W> + AsMut<[W]>> Dyn<W> for RevRW<W, Buf> {
+    fn op(mut self: Box<Self>, op: &Op<W>) -> (String, Box<dyn Dyn<W>>) {
+        if let Some(s) = rev_ro(&mut self.0, op) {
+            return (s, self);
+        }
+        let r = &mut self.0;
+        let s = match op {
+            Op::Write(w) => okerr(r.write(*w), "full"),
+            Op::Extend(ws) => extend_out(r, ws),
+            Op::SpaceLeft => hex(r.space_left() as u128),
+            Op::Full => format!("{} {}", r.is_full(), r.maybe_full()),
+            Op::IntoReversed => {
+                let c = self.0.into_reversed();
+                return ("ok".into(), Box::new(CurRW(c)));
+            }
+            Op::Roundtrip => {
+                if roundtrip_refused(&self.0 .0) {
+                    return ("err".into(), self);
+                }
+                let (buf, pos) = self.0 .0.into_buf_and_pos();
+                return match Cursor::new_at_pos(buf, pos) {
+                    Ok(c) => ("ok".into(), Box::new(RevRW(Reverse(c)))),
+                    Err(()) => panic!("roundtrip refused"),
+                };
+            }
+            _ => UNSUP.into(),
+        };
+        (s, self)
+    }
+    fn dup(&self) -> Box<dyn Dyn<W>> {
+        Box::new(RevRW(Reverse(rebuild(&self.0 .0))))
+    }
+}
+
+impl<W: Wd> Dyn<W> for CurRO<W> {
+    fn op(mut self: Box<Self>, op: &Op<W>) -> (String, Box<dyn Dyn<W>>) {
+        if let Some(s) = cur_ro(&mut self.0, op) {
+            return (s, self);
+        }
+        if let Op::Roundtrip = op {
+            if roundtrip_refused(&self.0) {
+                return ("err".into(), self);
+            }
+            let (buf, pos) = self.0.into_buf_and_pos();
+            return match Cursor::new_at_pos(buf, pos) {
+                Ok(c) => ("ok".into(), Box::new(CurRO(c))),
+                Err(()) => panic!("roundtrip refused"),
+            };
+        }
+        (UNSUP.into(), self)
+    }
+    fn dup(&self) -> Box<dyn Dyn<W>> {
+        Box::new(CurRO(self.0.clone()))
+    }
+}
+
+impl<W: Wd> Dyn<W> for RevRO<W> {
+    fn op(mut self: Box<Self>, op: &Op<W>) -> (String, Box<dyn Dyn<W>>) {
+        if let Some(s) = rev_ro(&mut self.0, op) {
+            return (s, self);
+        }
+        if let Op::Roundtrip = op {
+            if roundtrip_refused(&self.0 .0) {
+                return ("err".into(), self);
+            }
+            let (buf, pos) = self.0 .0.into_buf_and_pos();
+            return match Cursor::new_at_pos(buf, pos) {
+                Ok(c) => ("ok".into(), Box::new(RevRO(Reverse(c)))),
+                Err(()) => panic!("roundtrip refused"),
+            };
+        }
+        (UNSUP.into(), self)
+    }
+    fn dup(&self) -> Box<dyn Dyn<W>> {
+        Box::new(RevRO(Reverse(self.0 .0.clone())))
+    }
+}
+
+// ---------------------------------------------------------------------------------------
+// iterator adapters
+
+/// A deliberately non-fused iterator: yields the scripted `next()` results, `None` afterwards.
+#[derive(Clone, Debug)]
+pub struct Script<W> {
+    items: Vec<Option<Result<W, ()>>>,
+    idx: usize,
+}
+impl<W: Wd> Iterator for Script<W> {
+    type Item = Result<W, ()>;
+    fn next(&mut self) -> Option<Self::Item> {
+        if self.idx < self.items.len() {
+            let r = self.items[self.idx].clone();
+            self.idx += 1;
+            r
+        } else {
+            None
+        }
+    }
+    fn size_hint(&self) -> (usize, Option<usize>) {
+        let k = self.items[self.idx.min(self.items.len())..]
+            .iter()
+            .take_while(|x| x.is_some())
+            .count();
+        (k, Some(k))
+    }
+}
+impl<W: Wd> ExactSizeIterator for Script<W> {}
+
+fn show_item<W: Wd>(i: &Result<W, ()>) -> String {
+    match i {
+        Ok(w) => hex(to_u128(*w)),
+        Err(()) => "x".into(),
+    }
+}
+fn show_items<W: Wd>(v: &[Result<W, ()>]) -> String {
+    if v.is_empty() {
+        "-".into()
+    } else {
+        v.iter().map(show_item).collect::<Vec<_>>().join(",")
+    }
+}
+
+struct IterF<W: Wd>(FallibleIteratorReadWords<Script<W>>);
+struct IterI<W: Wd>(InfallibleIteratorReadWords<Script<W>>);
+
+impl<W: Wd> Dyn<W> for IterF<W> {
+    fn op(mut self: Box<Self>, op: &Op<W>) -> (String, Box<dyn Dyn<W>>) {
+        let r = &mut self.0;
+        let rd = |x: Result<Option<W>, ()>| match x {
+            Ok(o) => show_word(o),
+            Err(()) => "readerr".into(),
+        };
+        let s = match op {
+            Op::ReadS => rd(<_ as ReadWords<W, Stack>>::read(r)),
+            Op::ReadQ => rd(<_ as ReadWords<W, Queue>>::read(r)),
+            Op::RemS => hex(<_ as BoundedReadWords<W, Stack>>::remaining(r) as u128),
+            Op::RemQ => hex(<_ as BoundedReadWords<W, Queue>>::remaining(r) as u128),
+            Op::ExhS => format!(
+                "{} {}",
+                <_ as BoundedReadWords<W, Stack>>::is_exhausted(r),
+                <_ as ReadWords<W, Stack>>::maybe_exhausted(r)
+            ),
+            Op::ExhQ => format!(
+                "{} {}",
+                <_ as BoundedReadWords<W, Queue>>::is_exhausted(r),
+                <_ as ReadWords<W, Queue>>::maybe_exhausted(r)
+            ),
+            Op::Raw => show_items(&r.clone().into_iter().collect::<Vec<_>>()),
+            _ => UNSUP.into(),
+        };
+        (s, self)
+    }
+    fn dup(&self) -> Box<dyn Dyn<W>> {
+        Box::new(IterF(self.0.clone()))
+    }
+}
+
+impl<W: Wd> Dyn<W> for IterI<W> {
+    fn op(mut self: Box<Self>, op: &Op<W>) -> (String, Box<dyn Dyn<W>>) {
+        let r = &mut self.0;
+        // the "words" of this adapter are the `Result`s themselves (see the model's comment)
+        type Wr<W> = Result<W, ()>;
+        let rd = |x: Option<Wr<W>>| match x {
+            Some(i) => show_item(&i),
+            None => "none".into(),
+        };
+        let s = match op {
+            Op::ReadS => rd(<_ as ReadWords<Wr<W>, Stack>>::read(r).unwrap()),
+            Op::ReadQ => rd(<_ as ReadWords<Wr<W>, Queue>>::read(r).unwrap()),
+            Op::RemS => hex(<_ as BoundedReadWords<Wr<W>, Stack>>::remaining(r) as u128),
+            Op::RemQ => hex(<_ as BoundedReadWords<Wr<W>, Queue>>::remaining(r) as u128),
+            Op::ExhS => format!(
+                "{} {}",
+                <_ as BoundedReadWords<Wr<W>, Stack>>::is_exhausted(r),
+                <_ as ReadWords<Wr<W>, Stack>>::maybe_exhausted(r)
+            ),
+            Op::ExhQ => format!(
+                "{} {}",
+                <_ as BoundedReadWords<Wr<W>, Queue>>::is_exhausted(r),
+                <_ as ReadWords<Wr<W>, Queue>>::maybe_exhausted(r)
+            ),
+            Op::Raw => show_items(&r.clone().into_iter().collect::<Vec<_>>()),
+            _ => UNSUP.into(),
+        };
+        (s, self)
+    }
+    fn dup(&self) -> Box<dyn Dyn<W>> {
+        Box::new(IterI(self.0.clone()))
+    }
+}
+
+// ---------------------------------------------------------------------------------------
+// callback adapters
+
+#[derive(Clone, Default)]
+struct CbState<W> {
+    log: Vec<W>,
+    calls: u128,
+    fail_at: Vec<u128>,
+}
+
+type FCb<W> = Box<dyn FnMut(W) -> Result<(), ()>>;
+type ICb<W> = Box<dyn FnMut(W)>;
+
+struct CbF<W: Wd>(FallibleCallbackWriteWords<FCb<W>>, Rc<RefCell<CbState<W>>>);
+struct CbI<W: Wd>(InfallibleCallbackWriteWords<ICb<W>>, Rc<RefCell<CbState<W>>>);
+
+fn mk_cbf<W: Wd>(st: CbState<W>) -> CbF<W> {
+    let st = Rc::new(RefCell::new(st));
+    let s2 = st.clone();
+    let f: FCb<W> = Box::new(move |w: W| {
+        let mut s = s2.borrow_mut();
+        let n = s.calls;
+        s.calls += 1;
+        if s.fail_at.contains(&n) {
+            Err(())
+        } else {
+            s.log.push(w);
+            Ok(())
+        }
+    });
+    CbF(FallibleCallbackWriteWords::new(f), st)
+}
+fn mk_cbi<W: Wd>(st: CbState<W>) -> CbI<W> {
+    let st = Rc::new(RefCell::new(st));
+    let s2 = st.clone();
+    let f: ICb<W> = Box::new(move |w: W| {
+        let mut s = s2.borrow_mut();
+        s.calls += 1;
+        s.log.push(w);
+    });
+    CbI(InfallibleCallbackWriteWords::new(f), st)
+}
+
+fn cb_extend<W: Wd, B: WriteWords<W>>(b: &mut B, ws: &[W]) -> String {
+    let mut it = ws.to_vec().into_iter();
+    match b.extend_from_iter(&mut it) {
+        Ok(()) => {
+            if it.len() != 0 {
+                format!("leftover {:x}", it.len())
+            } else {
+                "ok".into()
+            }
+        }
+        Err(_) => format!("cberr {:x}", it.len()),
+    }
+}
+
+impl<W: Wd> Dyn<W> for CbF<W> {
+    fn op(mut self: Box<Self>, op: &Op<W>) -> (String, Box<dyn Dyn<W>>) {
+        let s = match op {
+            Op::Write(w) => okerr(self.0.write(*w), "cberr"),
+            Op::Extend(ws) => cb_extend(&mut self.0, ws),
+            Op::Full => format!("{}", self.0.maybe_full()),
+            Op::Raw => {
+                let st = self.1.borrow();
+                format!("cb {} {:x}", show_ws(&st.log), st.calls)
+            }
+            _ => UNSUP.into(),
+        };
+        (s, self)
+    }
+    fn dup(&self) -> Box<dyn Dyn<W>> {
+        Box::new(mk_cbf(self.1.borrow().clone()))
+    }
+}
+impl<W: Wd> Dyn<W> for CbI<W> {
+    fn op(mut self: Box<Self>, op: &Op<W>) -> (String, Box<dyn Dyn<W>>) {
+        let s = match op {
+            Op::Write(w) => okerr(self.0.write(*w), "cberr"),
+            Op::Extend(ws) => cb_extend(&mut self.0, ws),
+            Op::Full => format!("{}", self.0.maybe_full()),
+            Op::Raw => {
+                let st = self.1.borrow();
+                format!("cb {} {:x}", show_ws(&st.log), st.calls)
+            }
+            _ => UNSUP.into(),
+        };
+        (s, self)
+    }
+    fn dup(&self) -> Box<dyn Dyn<W>> {
+        Box::new(mk_cbi(self.1.borrow().clone()))
+    }
+}
+
+// ---------------------------------------------------------------------------------------
+// construction and the runner
+
+fn parse_script<W: Wd>(s: &str) -> Option<Vec<Option<Result<W, ()>>>> {
+    if s == "-" {
+        return Some(vec![]);
+    }
+    s.split(',')
+        .map(|t| match t {
+            "x" => Some(Some(Err(()))),
+            "_" => Some(None),
+            _ => parse_hex(t).map(|v| Some(Ok(from_u128::<W>(v)))),
+        })
+        .collect()
+}
+
+enum Init<W: Wd> {
+    Bad,
+    Refused,
+    Ok(Box<dyn Dyn<W>>),
+}
+
+fn cursor_init<W: Wd, Buf: BufK<W>>(seg: &[&str]) -> Option<Result<Cursor<W, Buf>, ()>> {
+    Some(match seg {
+        ["at", ws, p] => {
+            let l = parse_words::<W>(ws)?;
+            let p = parse_usize(p)?;
+            Cursor::new_at_pos(Buf::from_vec(l), p)
+        }
+        ["begin", ws] => Ok(Cursor::new_at_write_beginning(Buf::from_vec(parse_words::<W>(ws)?))),
+        ["end", ws] => Ok(Cursor::new_at_write_end(Buf::from_vec(parse_words::<W>(ws)?))),
+        _ => return None,
+    })
+}
+
+fn mk_rw<W: Wd, Buf: BufK<W> + AsMut<[W]>>(seg: &[&str], rev: bool) -> Init<W> {
+    match cursor_init::<W, Buf>(seg) {
+        None => Init::Bad,
+        Some(Err(())) => Init::Refused,
+        Some(Ok(c)) => {
+            if rev {
+                Init::Ok(Box::new(RevRW(Reverse(c))))
+            } else {
+                Init::Ok(Box::new(CurRW(c)))
+            }
+        }
+    }
+}
+fn mk_ro<W: Wd>(seg: &[&str], rev: bool) -> Init<W> {
+    match cursor_init::<W, &'static [W]>(seg) {
+        None => Init::Bad,
+        Some(Err(())) => Init::Refused,
+        Some(Ok(c)) => {
+            if rev {
+                Init::Ok(Box::new(RevRO(Reverse(c))))
+            } else {
+                Init::Ok(Box::new(CurRO(c)))
+            }
+        }
+    }
+}
+
+fn do_init<W: Wd>(kind: &str, seg: &[&str]) -> Init<W> {
+    fn opt<W: Wd>(o: Option<Box<dyn Dyn<W>>>) -> Init<W> {
+        match o {
+            Some(b) => Init::Ok(b),
+            None => Init::Bad,
+        }
+    }
+    match kind {
+        "backend.vec" => match seg {
+            ["data", ws] => opt(parse_words::<W>(ws).map(|l| Box::new(VecB(l)) as Box<dyn Dyn<W>>)),
+            _ => Init::Bad,
+        },
+        "backend.smallvec" => match seg {
+            ["data", ws] => opt(parse_words::<W>(ws)
+                .map(|l| Box::new(SmallB(SmallVec::<[W; 4]>::from_slice(&l))) as Box<dyn Dyn<W>>)),
+            _ => Init::Bad,
+        },
+        "backend.cursor-owned" => mk_rw::<W, Vec<W>>(seg, false),
+        "backend.cursor-box" => mk_rw::<W, Box<[W]>>(seg, false),
+        "backend.cursor-mut" => mk_rw::<W, &'static mut [W]>(seg, false),
+        "backend.cursor-slice" => mk_ro::<W>(seg, false),
+        "backend.rev-cursor" => mk_rw::<W, Vec<W>>(seg, true),
+        "backend.rev-cursor-box" => mk_rw::<W, Box<[W]>>(seg, true),
+        "backend.rev-cursor-mut" => mk_rw::<W, &'static mut [W]>(seg, true),
+        "backend.rev-cursor-slice" => mk_ro::<W>(seg, true),
+        "backend.iter" => match seg {
+            ["fallible", sc] => opt(parse_script::<W>(sc).map(|items| {
+                Box::new(IterF(FallibleIteratorReadWords::new(Script { items, idx: 0 }))) as Box<dyn Dyn<W>>
+            })),
+            ["infallible", sc] => opt(parse_script::<W>(sc).map(|items| {
+                Box::new(IterI(InfallibleIteratorReadWords::new(Script { items, idx: 0 }))) as Box<dyn Dyn<W>>
+            })),
+            _ => Init::Bad,
+        },
+        "backend.callback" => match seg {
+            ["fallible", fa] => opt(parse_list(fa).map(|fail_at| {
+                Box::new(mk_cbf::<W>(CbState { log: vec![], calls: 0, fail_at })) as Box<dyn Dyn<W>>
+            })),
+            ["infallible"] => Init::Ok(Box::new(mk_cbi::<W>(CbState { log: vec![], calls: 0, fail_at: vec![] }))),
+            _ => Init::Bad,
+        },
+        _ => Init::Bad,
+    }
+}
+
+fn run_w<W: Wd>(segs: &[Vec<&str>]) -> String {
+    let kind = segs[0][0];
+    let mut b = match do_init::<W>(kind, &segs[1]) {
+        Init::Bad => return "bad-op".into(),
+        Init::Refused => return "err".into(),
+        Init::Ok(b) => b,
+    };
+    let mut outs = vec!["ok".to_string()];
+    for seg in &segs[2..] {
+        let op = match parse_op::<W>(seg) {
+            Some(op) => op,
+            None => {
+                outs.push("bad-op".into());
+                break;
+            }
+        };
+        match guarded(move || b.op(&op)) {
+            Ok((s, nb)) => {
+                outs.push(s);
+                b = nb;
+            }
+            Err(class) => {
+                outs.push(class.into());
+                break;
+            }
+        }
+    }
+    outs.join(" | ")
+}
+
+pub fn run(segs: &[Vec<&str>]) -> String {
+    if segs.len() < 2 || segs[0].len() != 2 {
+        return "bad-op".into();
+    }
+    match parse_hex(segs[0][1]) {
+        Some(8) => run_w::<u8>(segs),
+        Some(16) => run_w::<u16>(segs),
+        Some(32) => run_w::<u32>(segs),
+        Some(64) => run_w::<u64>(segs),
+        Some(_) => "unsupported".into(),
+        None => "bad-op".into(),
+    }
+}
+
+include!("backend_gen.rs");
+include!("backend_oracle.rs");
